@@ -67,7 +67,7 @@ def floors(tier):
         "ops": [q for q in QUERIES],
         "reach": ["%s:%s" % a for a in ANCHORS],
         "sets": {"query_bigrams": 80},
-        "strata": ["iminuit", "scipy", "fixed", "limited", "xy", "indexed", "hist", "fault-injected:iminuit", "fault-injected:scipy", "fault-injected-before-first-read:iminuit", "fault-injected-before-first-read:scipy"],
+        "strata": ["iminuit", "scipy", "fixed", "limited", "xy", "indexed", "hist", "fault-injected:iminuit", "fault-injected:scipy", "fault-injected-before-first-read:iminuit", "fault-injected-before-first-read:scipy", "iterative-dynamic-errors:iminuit", "iterative-dynamic-errors:scipy"],
         "distinct_nontrivial": 40,
     }
 
@@ -86,6 +86,9 @@ def gen_case(rng, tier, idx, shard, nshards):
     else:
         spec = gen.gen_hist_spec(rng, density=str(rng.choice(["normal", "expdens"])), cost="nll_poisson", n_bins=int(rng.integers(6, 10)), n_entries=int(rng.integers(150, 400)))
     spec["minimizer"] = minimizer
+    # the iterative treatment of parameter-dependent uncertainties: its result is a fixed point, not the minimum of the cost the
+    # backend sees, so every query that lets the backend minimise again is tempted to walk away from it
+    spec["dea"] = "iterative" if (gi // 8) % 3 == 2 else "nonlinear"
     m = Model.from_spec(spec["model"])
     setup = []
     if ftype != "hist":
@@ -94,8 +97,10 @@ def gen_case(rng, tier, idx, shard, nshards):
         setup.append(gen.gen_source(rng, n, ftype, "e0", yscale=ys, force={"axis": "y", "reference": "data", "kind": "simple", "shape": "vec", "relative": False, "corr": 0.0}))
         if rng.random() < 0.5:
             setup.append(gen.gen_source(rng, n, ftype, "e1", yscale=ys * 0.5, force={"axis": "y", "reference": "data"}, allow_model=False, allow_x=False))
-        if ftype == "xy" and rng.random() < 0.25:
-            setup.append(gen.gen_source(rng, n, ftype, "e2", xscale=0.05, force={"axis": "x", "reference": "data", "kind": "simple", "relative": False}))
+        if ftype == "xy" and rng.random() < (0.7 if spec["dea"] == "iterative" else 0.25):
+            setup.append(gen.gen_source(rng, n, ftype, "e2", xscale=0.05 if spec["dea"] != "iterative" else 0.2, force={"axis": "x", "reference": "data", "kind": "simple", "relative": False}))
+        elif spec["dea"] == "iterative" and rng.random() < 0.7:
+            setup.append(["add_error", dict({"err": float(np.round(rng.uniform(0.05, 0.15), 4)), "relative": True, "reference": "model", "corr": 0.0, "name": "e3"}, **({"axis": "y"} if ftype == "xy" else {}))])
     fixed, limited = {}, {}
     if len(m.pnames) >= 3 and rng.random() < 0.35:
         nm = m.pnames[int(rng.integers(0, len(m.pnames)))]
@@ -374,7 +379,7 @@ def early_fault(ctx, case, fit, names, free, minimizer):
         ctx.violation(None, "state-readable-after-failed-query", dict(d, traceback=fmt_exc()))
         return True
     sig = np.where(np.isfinite(err) & (err > 0), err, np.abs(p0) + 1.0)
-    ptol, ctol = (1e-2, 1e-3) if minimizer == "iminuit" else (1e-1, 1e-2)
+    ptol, ctol = (1e-2, 1e-3) if minimizer == "iminuit" else (5e-2, 5e-3)
     devg = np.abs(pg - p0) / sig
     ctx.check("drift.after-failed-query", bool(np.all(devg <= ptol)) and abs(cg - c0) <= ctol, lambda: dict(d, before=p0, after=pg, deviation_in_sigma=devg, tolerance=ptol, cost_before=c0, cost_after=cg))
     ctx.check("minimizer==graph.after-failed-query", bool(np.all(np.abs(pm - pg) <= 1e-12 * np.maximum(np.abs(pg), 1e-300) + 1e-300)), lambda: dict(d, minimizer=pm, graph=pg))
@@ -388,6 +393,8 @@ def run_case(ctx, case):
     minimizer = spec["minimizer"]
     ctx.stratum(minimizer)
     ctx.stratum(spec["type"])
+    if spec.get("dea") == "iterative" and any(gen.norm_axis(o[1].get("axis")) == "x" or (o[1].get("relative") and o[1].get("reference") == "model") for o in case["setup"]):
+        ctx.stratum("iterative-dynamic-errors:" + minimizer)
     mb = Member(spec, case["setup"])
     fit = mb.fit
     for n, v in case["fixed"].items():
@@ -418,10 +425,9 @@ def run_case(ctx, case):
             return False
     sig = np.where(s0["err"] > 0, s0["err"], 1.0)
     # "unchanged up to the minimizer tolerance": one converged iminuit state is within 1e-2 sigma / 1e-3 in cost of the optimum, one converged scipy
-    # state within 5e-2 sigma / 5e-3 (C05).  A query that minimises again (scipy's generic asymmetric errors start with minimize()) ends in another
-    # converged state: two of them may differ by the sum, and the numerical Hessian taken there by a like amount (observed 0.0575 sigma, 5.5 %)
-    ptol, ctol = (1e-2, 1e-3) if minimizer == "iminuit" else (1e-1, 1e-2)
-    etol = 3e-2 if minimizer == "iminuit" else 1e-1
+    # state within 5e-2 sigma / 5e-3 (C05)
+    ptol, ctol = (1e-2, 1e-3) if minimizer == "iminuit" else (5e-2, 5e-3)
+    etol = 3e-2
     rng = np.random.default_rng(case["arg_seed"])
     tmpdir = tempfile.mkdtemp(prefix="verif-c08-")
     nontrivial = bool(case["fixed"] or case["limited"])
